@@ -23,7 +23,7 @@ pub fn def() -> PropDef {
     PropDef {
         id: "C15",
         level: "exploration",
-        rule: "all policies of both kinds with <= 2 filters, each filter exact/prefix over byte strings of length <= 2 from {a, b, ':', 0xff, 0x00} (empty filter, non-UTF-8, a colon for the textual form), evaluated on all keys of length <= 3 over the same bytes against the two-line definition; every filter over a richer byte set (additionally space, newline, tab and a two-byte UTF-8 character) through Display -> FromStr; set/get on existing and missing documents in memory and through reopen of a file-backed store; every history of length <= d over {set policy q on document 0|1 (6 policies incl. the default and both empty kinds), set on a missing document, reopen}: after every step each document reads what was set last on it, and — the same histories through the store actor with both documents kept open and subscribed — a fresh entry at a matching and at a non-matching key, arriving as a single remote insert and inside a reconciliation message, carries the download flag of the policy in force at that moment; should_download of real remote-insert events for every policy with <= 1 filter x every key; non-trivial = a policy with at least one filter evaluated on a key that at least one of its filters matches",
+        rule: "through the docs API of a real Engine: every history of <= 3 (thorough 4) events over {write, delete prefix, set one of three policies, open one more handle, close, drop_doc, import again} that sets a policy — the policy read afterwards is the one set last since the document was created, and setting succeeds only on an existing document; all policies of both kinds with <= 2 filters, each filter exact/prefix over byte strings of length <= 2 from {a, b, ':', 0xff, 0x00} (empty filter, non-UTF-8, a colon for the textual form), evaluated on all keys of length <= 3 over the same bytes against the two-line definition; every filter over a richer byte set (additionally space, newline, tab and a two-byte UTF-8 character) through Display -> FromStr; set/get on existing and missing documents in memory and through reopen of a file-backed store; every history of length <= d over {set policy q on document 0|1 (6 policies incl. the default and both empty kinds), set on a missing document, reopen}: after every step each document reads what was set last on it, and — the same histories through the store actor with both documents kept open and subscribed — a fresh entry at a matching and at a non-matching key, arriving as a single remote insert and inside a reconciliation message, carries the download flag of the policy in force at that moment; should_download of real remote-insert events for every policy with <= 1 filter x every key; non-trivial = a policy with at least one filter evaluated on a key that at least one of its filters matches",
         assumptions: &["filters longer than 2 bytes (3 in thorough for the textual form) and more than 2 filters per policy are outside the alphabet"],
         bound: |t| match t {
             Tier::Quick => json!({"policies": 7814, "keys": 156, "textual_filters": "length <= 2", "persisted_policies": "all in memory, every 16th through file reopen", "policy_histories": "depth <= 3 in memory, <= 2 file-backed with reopen"}),
@@ -505,6 +505,7 @@ fn history_symbols(file: bool) -> Vec<H> {
 
 fn run(ctx: &Ctx, report: &mut Report) {
     crate::util::silence_panics();
+    super::apifam::run_life_family(ctx, report, "C15");
     let keys = strings(3);
     let pols = all_policies();
     report.fact("policies", json!(pols.len()));
@@ -606,6 +607,9 @@ fn run(ctx: &Ctx, report: &mut Report) {
 }
 
 fn replay(case: &Value) -> anyhow::Result<(bool, String)> {
+    if let Some(r) = super::apifam::replay_life(case, "C15")? {
+        return Ok(r);
+    }
     let keys = strings(3);
     if let Some(f) = case.get("filter") {
         let f: F = serde_json::from_value(f.clone())?;
